@@ -365,7 +365,7 @@ pub fn gen_c01(seed: u64, thorough: bool) -> Vec<CaseSpec> {
         }
         // the FDT is coded with the default OTI: Reed-Solomon without parity cannot be published
         // (D21, refused since 318df3e), a Raptor block needs 4 source symbols (D23/D26)
-        if matches!(sch, Scheme::Rs | Scheme::RsUs) && sp.oti.p == 0 && rng.chance(9, 10) {
+        if matches!(sch, Scheme::Rs | Scheme::RsUs) && sp.oti.p == 0 {
             sp.oti.p = 1;
         }
         if sch == Scheme::Raptor {
